@@ -105,6 +105,7 @@ loop:
 				t.skip(read.offset, read.source)
 				skipped++
 			}
+			verifCount("processed", t)
 			t.db.walBuffers.Put(read.data)
 			delta := time.Now().Sub(start)
 			if delta > 1*time.Minute {
